@@ -26,9 +26,9 @@ def registered():
 
 def do_import():
     os.makedirs(SEEDED, exist_ok=True)
-    for conf in sorted(glob.glob("/tmp/seed/*/confirm.txt")) + sorted(glob.glob("/tmp/seed2/*/confirm.txt")) + sorted(glob.glob("/tmp/seed3/*/confirm.txt")) + sorted(glob.glob("/tmp/seed4/*/confirm.txt")):
+    for conf in sorted(glob.glob("/tmp/seed/*/confirm.txt")) + sorted(glob.glob("/tmp/seed2/*/confirm.txt")) + sorted(glob.glob("/tmp/seed3/*/confirm.txt")) + sorted(glob.glob("/tmp/seed4/*/confirm.txt")) + sorted(glob.glob("/tmp/seed5/*/confirm.txt")):
         base = os.path.dirname(os.path.dirname(conf))
-        rnd = {"seed2": "-r2", "seed3": "-r3", "seed4": "-r4"}.get(os.path.basename(base), "")
+        rnd = {"seed2": "-r2", "seed3": "-r3", "seed4": "-r4", "seed5": "-r5"}.get(os.path.basename(base), "")
         for line in open(conf):
             if "=> CONFIRMED" not in line:
                 continue
